@@ -581,7 +581,7 @@ func run(c *Ctx) error {
 	}
 	n := 500
 	if c.Tier != "quick" {
-		n = 3000
+		n = 2000
 	}
 	for k := 0; k < n; k++ {
 		toks, tag := gen(c.Rng, c.Tier != "quick")
